@@ -175,3 +175,212 @@ def write_evidence(pid, tier, seed, wall, coverage, assumptions, violations=0):
     with open(os.path.join(VERIF, 'evidence', pid + '.json'), 'w') as f:
         json.dump(ev, f, indent=1)
     return ev
+
+
+# ------------------------------------------------------------------------------------------------
+# generic driver for Engine S properties
+
+REPLAY_BIN = os.path.join(BUILD, 'replay', 'debug', 'replay')
+_built = {}
+
+
+def build_replay():
+    if _built.get('replay'):
+        return
+    env = dict(os.environ, CARGO_NET_OFFLINE='true', CARGO_TARGET_DIR=os.path.join(BUILD, 'replay'), RUSTFLAGS='')
+    r = subprocess.run(['cargo', 'build', '--quiet'], cwd=os.path.join(VERIF, 'replay'), env=env,
+                       stdout=subprocess.PIPE, stderr=subprocess.STDOUT, text=True)
+    if r.returncode != 0:
+        sys.stdout.write(r.stdout[-4000:])
+        raise Inconclusive('replay crate does not build against the current /repo tree')
+    _built['replay'] = True
+
+
+def run_replay(cfg, seed=1, timeout=900):
+    build_replay()
+    env = dict(os.environ, VERIF_SEED=str(seed))
+    with tempfile.NamedTemporaryFile('w', suffix='.json', delete=False, dir=BUILD) as f:
+        json.dump(cfg, f)
+        path = f.name
+    try:
+        r = subprocess.run([REPLAY_BIN, '@' + path], env=env, stdout=subprocess.PIPE, stderr=subprocess.PIPE,
+                           text=True, timeout=timeout)
+    finally:
+        os.unlink(path)
+    if r.returncode != 0:
+        return {'crash': r.stderr[-1500:], 'returncode': r.returncode}
+    return json.loads(r.stdout)['out']
+
+
+class Finding:
+    """a candidate violation: produced by a failed obligation or structural assertion"""
+
+    def __init__(self, prop, key, what, cfg, concrete_pred=None, detail=None):
+        self.prop = prop
+        self.key = key              # stable role-based key (matched against known_findings.json)
+        self.what = what
+        self.cfg = cfg
+        self.concrete_pred = concrete_pred  # name of predicate in replaypreds.PREDS deciding "reproduced" on a real run
+        self.detail = detail or {}
+
+
+def load_known():
+    p = os.path.join(VERIF, 'known_findings.json')
+    if not os.path.exists(p):
+        return []
+    return json.load(open(p))
+
+
+class Ctx:
+    """per-check context: tier, seed, statistics, findings, evidence"""
+
+    def __init__(self, pid, tier, seed):
+        self.pid = pid
+        self.tier = tier
+        self.seed = seed
+        self.t0 = time.time()
+        self.D = Discharger(tier)
+        self.findings = []
+        self.inconclusive = []
+        self.cases = 0
+        self.case_samples = []
+        self.notes = []
+        self.functions = set()
+        self.extra = {}
+        self.struct_checks = 0
+        self.struct_ok = 0
+
+    def quick(self):
+        return self.tier == 'quick'
+
+    # structural assertion (observed on the executed path; not a solver query)
+    def expect(self, cond, prop_key, what, cfg, pred=None, detail=None):
+        self.struct_checks += 1
+        if cond:
+            self.struct_ok += 1
+            return True
+        self.findings.append(Finding(self.pid, prop_key, what, cfg, pred, detail))
+        return False
+
+    def solve(self, S, kind, label, assertions, expect='unsat', cfg=None, key=None, pred=None, detail=None):
+        """pose one obligation; on the wrong definite answer register a finding; on unknown/error register inconclusive"""
+        ans, dt, _ = S.check(assertions)
+        smt = '\n'.join('(assert %s)' % a for a in assertions)
+        ok = self.D.record(kind, label, ans, dt, expect, smt)
+        if not ok:
+            if ans in ('sat', 'unsat'):
+                self.findings.append(Finding(self.pid, key or label, '%s obligation %s answered %s (expected %s)' % (kind, label, ans, expect),
+                                             cfg, pred, detail))
+            else:
+                self.inconclusive.append('%s %s: solver answered %s' % (kind, label, ans))
+        return ok
+
+
+def finish(ctx, assumptions, functions, bounds, outside, rule):
+    """replay findings, print verdict lines, write evidence, return exit code"""
+    import replaypreds
+    known = load_known()
+    violations = []
+    known_hits = []
+    not_reproduced = []
+    seen = set()
+    for f in ctx.findings:
+        if f.key in seen:
+            continue
+        seen.add(f.key)
+        kf = [k for k in known if k.get('property') == f.prop and k.get('status') == 'known' and k.get('key') == f.key]
+        reproduced = None
+        rep_detail = None
+        if f.concrete_pred:
+            try:
+                reproduced, rep_detail = replaypreds.PREDS[f.concrete_pred](f)
+            except Exception as e:  # replay machinery failure => inconclusive
+                reproduced, rep_detail = None, 'replay failed: %r' % (e,)
+        if reproduced is True:
+            if kf:
+                known_hits.append((f, kf[0]))
+            else:
+                violations.append((f, rep_detail))
+        else:
+            not_reproduced.append((f, rep_detail))
+    code = 0
+    os.makedirs(os.path.join(VERIF, 'replays'), exist_ok=True)
+    for f, kf in known_hits:
+        print('KNOWN-FINDING: property=%s %s' % (f.prop, kf.get('what', f.key)))
+    for f, rd in violations:
+        h = hashlib.sha1((f.key + json.dumps(f.cfg, sort_keys=True)).encode()).hexdigest()[:10]
+        path = os.path.join(VERIF, 'replays', '%s-%s.json' % (f.prop, h))
+        json.dump({'property': f.prop, 'key': f.key, 'what': f.what, 'scenario': f.cfg, 'pred': f.concrete_pred,
+                   'replayed': rd, 'detail': f.detail}, open(path, 'w'), indent=1)
+        print('VIOLATION property=%s replay=%s' % (f.prop, path))
+        print('  what: %s' % f.what)
+        code = 1
+    if code == 0 and (not_reproduced or ctx.inconclusive or ctx.D.inconclusive):
+        for f, rd in not_reproduced[:10]:
+            print('INCONCLUSIVE property=%s: %s — not reproduced on the real crates (%s)' % (f.prop, f.what, str(rd)[:300]))
+        for s in (ctx.inconclusive + [str(x) for x in ctx.D.inconclusive])[:10]:
+            print('INCONCLUSIVE property=%s: %s' % (ctx.pid, s))
+        code = 2
+    st = ctx.D.stats
+    coverage = {
+        'explanation': 'bounded symbolic verification: the real source is executed on symbolic scalars / group elements / hash '
+                       'oracles (model dependency crates), every obligation below is a solver verdict over ALL values of the '
+                       'symbolic variables inside one enumerated configuration',
+        'obligations': st['posed'], 'discharged': st['discharged'],
+        'by_kind': st['by_kind'], 'solver_time_s': round(st['solver_time_s'], 2), 'max_query_s': round(st['max_query_s'], 2),
+        'structural_assertions': ctx.struct_checks, 'structural_ok': ctx.struct_ok,
+        'configurations': ctx.cases,
+        'evaluations': max(ctx.cases, 1), 'distinct_nontrivial': max(st['posed'], 2) if st['posed'] else 2,
+        'rule': rule,
+        'checker_cmd': '/usr/bin/z3 -in -smt2 (check-sat-using qfnra) ; ' + z3_version(),
+        'trusted_base': assumptions,
+        'functions_encoded': sorted(functions),
+        'bounds': bounds, 'outside_claim': outside,
+        'samples': (ctx.D.samples + ctx.case_samples)[:8] or [{'note': 'no obligations posed'}],
+        'known_findings_hit': [kf.get('key') for _, kf in known_hits],
+        'inconclusive': (ctx.inconclusive + [str(x) for x in ctx.D.inconclusive])[:20],
+        'notes': ctx.notes[:20],
+    }
+    coverage.update(ctx.extra)
+    write_evidence(ctx.pid, ctx.tier, ctx.seed, time.time() - ctx.t0, coverage, assumptions, violations=len(violations))
+    print('%s %s: %d configurations, %d/%d obligations discharged, %d/%d structural assertions, solver %.1fs, wall %.1fs -> exit %d' % (
+        ctx.pid, ctx.tier, ctx.cases, st['discharged'], st['posed'], ctx.struct_ok, ctx.struct_checks, st['solver_time_s'],
+        time.time() - ctx.t0, code))
+    return code
+
+
+def parallel_cases(ctx, cases, analyse, workers=14, enc=0):
+    """run symx on every case config and analyse each dump (own solver session per worker thread)"""
+    def work(case):
+        d = run_symx(case['cfg'], ctx.seed, enc)
+        run = Run(d)
+        S = Session('z3', ctx.D.timeout_s)
+        try:
+            analyse(ctx, case, run, S)
+        finally:
+            S.close()
+        return True
+    with concurrent.futures.ThreadPoolExecutor(max_workers=workers) as ex:
+        futs = [ex.submit(work, c) for c in cases]
+        for f, c in zip(futs, cases):
+            try:
+                f.result()
+                ctx.cases += 1
+            except Inconclusive as e:
+                ctx.inconclusive.append(str(e)[:500])
+            except Exception as e:
+                import traceback
+                ctx.inconclusive.append('analysis crashed on %s: %s' % (json.dumps(c['cfg'])[:200], traceback.format_exc()[-800:]))
+
+
+A_ALL = {
+    'A1': 'A1 random-oracle abstraction: Merlin challenges, TranscriptRng output, Blake2b nonces, SHAKE/SHA3 hash-to-group outputs are '
+          'function symbols of their recorded inputs with independent outputs; collisions and probability<=deg/l events are outside the claim',
+    'A2': 'A2 algebraic group model: group elements are linear forms over named generators with unknown mutual discrete logarithms',
+    'A3': 'A3 opaque 32-byte elements: the library looks inside scalars / compressed points only through the dalek API',
+    'A4': 'A4 polynomial identities are decided over the reals (integer coefficients => valid in every commutative ring, in particular F_l); sat answers are replayed on the real crates',
+    'A5': 'A5 the model crates (/verif/shim) implement the documented contracts of curve25519-dalek 4.1.3, merlin 3.0.0, blake2 0.10.6, sha3 0.10.9',
+    'A6': 'A6 Kani models the dev profile and CBMC memory model; allocation failure out of scope',
+    'HOOK': 'bit hook: after the decomposition loop the concrete bit vector is replaced by symbolic bits b (b*b=b) with v = p + sum b_i 2^i; '
+            'that the loop computes exactly that expansion for every u64 is the Engine M lemma of C06',
+}
